@@ -1,10 +1,17 @@
-"""C06 — see DESIGN.md §5. Shared machinery: checks/hist_common.py, checks/oracles.py."""
-from checks import hist_common
+"""C06 — see DESIGN.md §5. Shared machinery: checks/hist_common.py, checks/oracles.py.
+The peer address as the string Start sees (Model/AddrRe.v, Properties/C06A.v,
+generated table Gen/AddrRe.v, harness family addrre): checks/addr_re.py."""
+import json
+
+from checks import addr_re, hist_common
 
 
 def run(chk):
+    addr_re.stage(chk)
     return hist_common.run_property(chk, "C06")
 
 
 def replay(chk, path):
+    if "addrre" in json.load(open(path)):
+        return addr_re.replay(chk, path)
     return hist_common.replay_property(chk, "C06", path)
